@@ -55,7 +55,7 @@ def run_one(m, repo, tests):
                                cwd=dst, env=ENV, capture_output=True, text=True)
             if t.returncode != 0:
                 return "stale", "mutant fails the baseline tests: " + t.stdout[-400:]
-        r = subprocess.run([os.path.join(HERE, "bin", "shovelcheck"), "-prop", m["prop"], "-repo", dst, "-noevidence",
+        r = subprocess.run([os.environ.get("VERIF_CHECKER") or os.path.join(HERE, "bin", "shovelcheck"), "-prop", m["prop"], "-repo", dst, "-noevidence",
                             "-known", os.path.join(HERE, "known_findings.json")], env=ENV, capture_output=True, text=True)
         out = r.stdout
         if m.get("expect") == "pass":
